@@ -475,6 +475,17 @@ class Folder:
                 return [tuple(x) for x in itertools.product(*seqs)]
             if fn[1] in ("typing.TypeVar", "typing.NewType"):
                 return Opaque(fn[1])
+            if fn[1] == "typing.get_args" and len(t[2]) == 1:
+                a0 = t[2][0]
+                if a0[0] == "gvar":
+                    mod, _, name = a0[1].rpartition(".")
+                    m_ = self.prog.modules.get(mod)
+                    if m_ is not None and name in m_.assigns:
+                        a0 = self.ev.global_value(m_, name)
+                if a0[0] == "sub" and a0[1] == ("ext", "typing.Literal"):
+                    v_ = f(a0[2])
+                    return tuple(v_) if isinstance(v_, (tuple, list)) else (v_,)
+                raise NotConstant("typing.get_args of a non-Literal")
             raise NotConstant(f"external call {fn[1]}")
         if fn[0] == "class":
             return self.construct(fn[1], t[2], dict(t[3]), depth, bindings)
